@@ -1,7 +1,248 @@
-//! C20 end-to-end part (puppet-based) — filled in once the puppet exists.
+//! C20 end-to-end part: which thread stacks a dump keeps when skipping unreferenced stacks.
+//! Three spin threads whose stack words the checker plants; principal mapping = a dedicated region
+//! or a thread's own code page (so that thread's instruction pointer is inside it); every
+//! combination (<=2 deviations quick, full product thorough) of per-thread pointer placements x
+//! principal address {inside a mapping, in none} x crash context {off, on}.
+
+use crate::dump::{dump_mem, CrashSpec, DumpOpts, DumpResult, DIM_RIP, DIM_RSP};
+use crate::puppet::{Kind, Puppet, RBX, RSP};
+use crate::shapes::par_map;
 use crate::Ctx;
-use mdv_core::{Report, Value};
-pub fn run(_ctx: &Ctx, _rep: &mut Report) {}
-pub fn replay(_case: &Value, rep: &mut Report) {
-    rep.machinery("end-to-end C20 replay not available yet".into());
+use mdv_core::mdparse::{Dump, ST_MOZ_SOFT_ERRORS};
+use mdv_core::{json, Report, Value};
+
+const MODES: [&str; 6] = ["none", "at-sp", "at-sp+8", "last-word-of-stack", "below-sp-only", "unaligned-only"];
+
+#[derive(Clone, Debug)]
+pub struct Case {
+    modes: [usize; 3],
+    principal: usize, // 0 dedicated region, 1 thread 0's code page, 2 address in no mapping
+    ctx: usize,       // 0 off, 1 on: rip outside, 2 on: rip inside principal, 3 on: rip == end of principal
+}
+
+impl Case {
+    fn to_json(&self) -> Value {
+        json!({"modes": self.modes.iter().map(|m| MODES[*m]).collect::<Vec<_>>(), "principal": self.principal, "ctx": self.ctx})
+    }
+    fn from_json(v: &Value) -> Option<Case> {
+        let m: Vec<usize> = v.get("modes")?.as_array()?.iter().filter_map(|x| MODES.iter().position(|n| Some(*n) == x.as_str())).collect();
+        Some(Case { modes: [m[0], m[1], m[2]], principal: v.get("principal")?.as_u64()? as usize, ctx: v.get("ctx")?.as_u64()? as usize })
+    }
+}
+
+pub struct Target {
+    p: Puppet,
+    region: u64, // dedicated principal region (2 pages)
+    sp: [u64; 3],
+    hi: [u64; 3], // end of each thread's stack mapping
+}
+
+fn make_target() -> Target {
+    let mut p = Puppet::spawn();
+    let region = p.pattern(2, "hole", "rx");
+    let mut sp = [0u64; 3];
+    let mut hi = [0u64; 3];
+    for i in 0..3 {
+        // each spin thread gets a dedicated two-page region as its stack (a spin thread never uses
+        // its stack; signals run on the alternate stack): unlike a pthread stack it has no TCB/rseq
+        // area at the top that the kernel rewrites behind our back, so the LAST word is ours too
+        let stack = p.pattern(2, "hole", "rw");
+        hi[i] = stack + 2 * 4096;
+        let t = p.mkthread(Kind::Spin);
+        let rsp = stack + 0x7c0;
+        p.set_gpr(t, RSP, rsp);
+        for r in 0..16 {
+            if r != RSP {
+                p.set_gpr(t, r, 0x1111_0000 + (i as u64) * 0x100 + r as u64);
+            }
+        }
+        if i == 2 {
+            // a pointer into the dedicated region held in a register only: never a stack reference
+            p.set_gpr(t, RBX, region + 0x10);
+        }
+        p.start(t);
+        sp[i] = rsp;
+    }
+    // scrub the captured part of the stacks of anything that might look like a pointer into the regions
+    p.quiesce();
+    Target { p, region, sp, hi }
+}
+
+fn expected_reference(mem: &[u8], base: u64, sp: u64, low: u64, high: u64) -> bool {
+    let mut a = (sp + 7) & !7;
+    while a + 8 <= base + mem.len() as u64 {
+        let o = (a - base) as usize;
+        let w = u64::from_le_bytes(mem[o..o + 8].try_into().unwrap());
+        if w >= low && w < high {
+            return true;
+        }
+        a += 8;
+    }
+    false
+}
+
+pub fn run_case(t: &mut Target, c: &Case) -> Vec<(String, String)> {
+    let mut fails = Vec::new();
+    let (low, high) = match c.principal {
+        0 => (t.region, t.region + 2 * 4096),
+        1 => (t.p.threads[0].page, t.p.threads[0].page + 4096),
+        _ => (0x10, 0x10),
+    };
+    let ptr = if c.principal == 2 { t.region + 0x20 } else { low + 0x20 };
+    // plant
+    let mut restore: Vec<(u64, Vec<u8>)> = Vec::new();
+    for i in 0..3 {
+        let sp = t.sp[i];
+        let hi = t.hi[i];
+        let slots: Vec<u64> = match c.modes[i] {
+            1 => vec![sp],
+            2 => vec![sp + 8],
+            3 => vec![hi - 8],
+            4 => vec![sp - 8, sp - 64],
+            5 => vec![sp + 20],
+            _ => vec![],
+        };
+        for s in slots {
+            restore.push((s, t.p.read(s, 8)));
+            t.p.write(s, &ptr.to_le_bytes());
+        }
+    }
+    let blamed = t.p.threads[1].tid;
+    let mut o = DumpOpts { skip_unref: true, principal: Some(if c.principal == 2 { 0x10 } else { low as usize + 0x40 }), blamed: Some(blamed), ..Default::default() };
+    let ctx_rip = match c.ctx {
+        1 => Some(t.p.threads[1].page + 0x10),
+        2 => Some(if c.principal == 2 { t.region } else { low + 4 }),
+        3 => Some(if c.principal == 2 { t.region } else { high }),
+        _ => None,
+    };
+    if let Some(rip) = ctx_rip {
+        o.crash = Some(CrashSpec { tid: blamed, signo: 11, code: 1, addr: 0, devs: vec![(DIM_RSP, t.sp[1]), (DIM_RIP, rip)] });
+    }
+    // expectations from the target's real memory
+    let mut exp = [false; 3];
+    let mut why = [""; 3];
+    let have_mapping = c.principal != 2;
+    for i in 0..3 {
+        let hi = t.hi[i];
+        let base = t.sp[i] & !0xfff;
+        let mem = t.p.read(base, (hi - base) as usize);
+        let ip_inside = if i == 1 && ctx_rip.is_some() { let r = ctx_rip.unwrap(); r >= low && r < high } else { let pg = t.p.threads[i].page; pg >= low && pg < high };
+        let refd = expected_reference(&mem, base, t.sp[i], low, high);
+        exp[i] = have_mapping && (ip_inside || refd);
+        why[i] = if ip_inside { "ip inside" } else if refd { "stack word" } else { "nothing" };
+    }
+    let r = dump_mem(t.p.pid, &o);
+    for (a, old) in restore.iter().rev() {
+        t.p.write(*a, old);
+    }
+    let bytes = match r {
+        DumpResult::Ok(b) => b,
+        DumpResult::Err(e) => {
+            fails.push(("dump-failed".into(), format!("dump with stack skipping returned an error: {e}")));
+            return fails;
+        }
+        DumpResult::Panic(p) => {
+            fails.push(("panic".into(), p));
+            return fails;
+        }
+    };
+    let d = Dump::parse(&bytes);
+    for i in 0..3 {
+        let tid = t.p.threads[i].tid as u32;
+        let Some(th) = d.threads.iter().find(|x| x.tid == tid) else {
+            fails.push(("thread-record-missing".into(), format!("thread {i} has no thread record")));
+            continue;
+        };
+        if th.context.size == 0 {
+            fails.push(("context-missing".into(), format!("thread {i}: no CPU context")));
+        }
+        let included = th.stack.size > 0;
+        if included != exp[i] {
+            let k = if included { "stack-kept-but-unreferenced" } else { "stack-dropped-but-referenced" };
+            let detail = if included && c.ctx == 3 && i == 1 { "/ip-equals-mapping-end" } else { "" };
+            fails.push((format!("{k}{detail}"), format!("thread {i} (placement {}, reference through: {}): stack included = {included}, rule says {}", MODES[c.modes[i]], why[i], exp[i])));
+        }
+        if included && !d.memory.iter().any(|m| m.start == th.stack_start && m.loc.rva == th.stack.rva) {
+            fails.push(("kept-stack-not-in-memory-list".into(), format!("thread {i}: kept stack is not in the memory list")));
+        }
+    }
+    if c.ctx != 0 {
+        let soft = d.raw_bytes(&bytes, ST_MOZ_SOFT_ERRORS).map(|b| String::from_utf8_lossy(b).into_owned()).unwrap_or_default();
+        let reported = soft.contains("PrincipalMappingNotReferenced");
+        let should = !exp[1];
+        if reported != should {
+            fails.push((if reported { "spurious-not-referenced-soft-error" } else { "missing-not-referenced-soft-error" }.into(), format!("crash thread references the principal mapping = {}, soft error reported = {reported}", exp[1])));
+        }
+    }
+    fails
+}
+
+fn cases(thorough: bool) -> Vec<Case> {
+    let mut v = Vec::new();
+    let sizes = [MODES.len(), MODES.len(), MODES.len()];
+    let mut tuples: Vec<Vec<usize>> = Vec::new();
+    if thorough {
+        mdv_core::lat::product(&sizes, |t| tuples.push(t.to_vec()));
+    } else {
+        mdv_core::lat::lat(&sizes, 2, |t| tuples.push(t.to_vec()));
+    }
+    for t in tuples {
+        for principal in 0..3 {
+            for ctx in 0..4 {
+                if !thorough && ctx >= 2 && t.iter().filter(|x| **x != 0).count() > 1 {
+                    continue;
+                }
+                v.push(Case { modes: [t[0], t[1], t[2]], principal, ctx });
+            }
+        }
+    }
+    v
+}
+
+pub fn run(ctx: &Ctx, rep: &mut Report) {
+    let cs = cases(ctx.tier.is_thorough());
+    let chunks: Vec<Vec<Case>> = cs.chunks(cs.len().div_ceil(16)).map(|c| c.to_vec()).collect();
+    let results = par_map(&chunks, |_, chunk| {
+        let mut t = make_target();
+        let mut out = Vec::new();
+        for c in chunk {
+            t.p.quiesce();
+            let f = run_case(&mut t, c);
+            out.push((c.clone(), f));
+        }
+        out
+    });
+    let (mut kept, mut dropped) = (0u64, 0u64);
+    for chunk in results {
+        for (c, fails) in chunk {
+            rep.evaluations += 1;
+            if c.modes.iter().any(|m| *m != 0) && c.principal != 2 {
+                rep.nontrivial += 1;
+            }
+            if c.modes.iter().any(|m| matches!(*m, 1 | 2 | 3)) {
+                kept += 1;
+            } else {
+                dropped += 1;
+            }
+            if rep.samples.len() < 5 && c.modes[0] != 0 && c.modes[1] != 0 {
+                rep.sample(c.to_json());
+            }
+            for (k, m) in fails {
+                rep.violation(&format!("dump/{k}"), &m, c.to_json());
+            }
+        }
+    }
+    rep.set("end_to_end", json!({"cases": cs.len(), "cases_with_a_planted_reference": kept, "cases_without": dropped}));
+}
+
+pub fn replay(case: &Value, rep: &mut Report) {
+    let Some(c) = Case::from_json(case) else {
+        rep.machinery("bad replay".into());
+        return;
+    };
+    let mut t = make_target();
+    rep.evaluations += 1;
+    for (k, m) in run_case(&mut t, &c) {
+        rep.violation(&format!("dump/{k}"), &m, case.clone());
+    }
 }
